@@ -68,9 +68,9 @@ DRIVERS = {
 # property -> drivers, bounded models
 CHECKS = {
     "C01": {"drivers": ["auth", "valid", "api"], "models": ["gen_secp"]},
-    "C02": {"drivers": ["struct", "valid"], "models": ["gen_secp", "gen_ed"]},
+    "C02": {"drivers": ["struct", "valid"], "models": ["gen_secp", "gen_ed", "rlp"]},
     "C03": {"drivers": ["hist_full", "auth_light", "struct", "text", "prefix", "typed_b", "nodeid", "keys", "api", "huge"], "models": ["hist_k256", "gen_ed"]},
-    "C04": {"drivers": ["valid", "struct", "hist_full", "size_full"], "models": ["gen_secp"]},
+    "C04": {"drivers": ["valid", "struct", "hist_full", "size_full"], "models": ["gen_secp", "rlp"]},
     "C05": {"drivers": ["hist", "hist_long", "size"], "models": ["hist_k256", "hist_ed", "hist_comb_secp", "hist_comb_ed", "build_ed"], "models_thorough": ["hist_sim"]},
     "C06": {"drivers": ["hist", "size", "seq"], "models": ["hist_k256", "hist_comb_secp"]},
     "C07": {"drivers": ["seq", "hist"], "models": ["hist_k256"]},
